@@ -50,6 +50,8 @@ type Contract struct {
 	PanicAssumed bool      // explicit panic sites are assumed unreachable under requires (documented panic; trusted link)
 	Inline       bool      // callers execute the body instead of using the contract
 	AllocBound   *SpecExpr // every make([]T, n) in the function must have n <= this bound (resource obligation)
+	MayPanic     bool      // the (trusted) function can panic on some inputs: callers must recover
+	Unclaimed    []Unclaimed
 	ChanSafe     bool
 	ChanSafeTags []string
 	Trusted      bool
@@ -61,6 +63,9 @@ type Contract struct {
 	Allocates    bool
 	Src          string
 }
+
+// Unclaimed names automatic obligations that are generated and reported but not part of the claim.
+type Unclaimed struct{ Kind, Sub, Reason string }
 
 type SpecFn struct {
 	Name string
@@ -91,6 +96,8 @@ type ContractDB struct {
 	guardTags  map[string][]string
 	lockinv    map[string]*SpecExpr // structKey + "." + mutex field
 	lockinvP   map[string]*types.Package
+	chanelem   map[string]*SpecExpr
+	chanelemP  map[string]*types.Package
 	typeinv    map[string]*SpecExpr
 	typeinvP   map[string]*types.Package
 	strIDs     map[string]int
@@ -102,7 +109,7 @@ type ContractDB struct {
 func newDB(w *World) *ContractDB {
 	return &ContractDB{w: w, byFunc: map[string]*Contract{}, byIface: map[string]*Contract{}, byFuncType: map[string]*Contract{}, ambiguous: map[string]bool{},
 		specFns: map[string]*SpecFn{}, preds: map[string]*Pred{}, guarded: map[string]map[string]string{},
-		guardTags: map[string][]string{}, lockinv: map[string]*SpecExpr{}, lockinvP: map[string]*types.Package{}, typeinv: map[string]*SpecExpr{}, typeinvP: map[string]*types.Package{},
+		guardTags: map[string][]string{}, lockinv: map[string]*SpecExpr{}, lockinvP: map[string]*types.Package{}, typeinv: map[string]*SpecExpr{}, chanelem: map[string]*SpecExpr{}, chanelemP: map[string]*types.Package{}, typeinvP: map[string]*types.Package{},
 		strIDs: map[string]int{}, typeIDs: map[string]int{}, typeByID: map[int]types.Type{}}
 }
 
@@ -545,6 +552,28 @@ func (db *ContractDB) parseLines(lines []srcLine, pkg *types.Package, trusted bo
 			k := "S_" + typeKey(obj.Type())
 			db.typeinv[k] = se
 			db.typeinvP[k] = pkg
+		case "chanelem":
+			// chanelem T := expr over elem: invariant of every value sent on / received from a `chan T`
+			cur = nil
+			i := strings.Index(rest, ":=")
+			te, err := parser.ParseExpr(strings.TrimSpace(rest[:i]))
+			if err != nil {
+				db.errf("%s: bad chanelem type", src)
+				continue
+			}
+			env := &specEnv{pkg: pkg}
+			t, err := env.resolveTypeStatic(te, db)
+			if err != nil {
+				db.errf("%s: %v", src, err)
+				continue
+			}
+			se, err := parseSpec(strings.TrimSpace(rest[i+2:]), tags, src)
+			if err != nil {
+				db.errf("%v", err)
+				continue
+			}
+			db.chanelem[types.TypeString(t, nil)] = se
+			db.chanelemP[types.TypeString(t, nil)] = pkg
 		case "lockinv":
 			cur = nil
 			i := strings.Index(rest, ":=")
@@ -606,6 +635,21 @@ func (db *ContractDB) parseLines(lines []srcLine, pkg *types.Package, trusted bo
 					continue
 				}
 				cur.AllocBound = se
+			case "unclaimed":
+				// unclaimed <kind> <substring of anchor> -- <reason>: generated, reported, not claimed
+				parts := strings.SplitN(rest, "--", 2)
+				f := strings.Fields(parts[0])
+				if len(f) < 2 {
+					db.errf("%s: bad unclaimed clause", src)
+					continue
+				}
+				u := Unclaimed{Kind: f[0], Sub: strings.Join(f[1:], " ")}
+				if len(parts) == 2 {
+					u.Reason = strings.TrimSpace(parts[1])
+				}
+				cur.Unclaimed = append(cur.Unclaimed, u)
+			case "maypanic":
+				cur.MayPanic = true
 			case "inline":
 				cur.Inline = true
 			case "chansafe":
@@ -779,6 +823,38 @@ func (env *specEnv) lookupPkg(name string) *types.Package {
 		}
 	}
 	return nil
+}
+
+// resolveTypeStatic resolves a type expression without a frame (package-level declarations).
+func (env *specEnv) resolveTypeStatic(x ast.Expr, db *ContractDB) (types.Type, error) {
+	switch t := x.(type) {
+	case *ast.StarExpr:
+		el, err := env.resolveTypeStatic(t.X, db)
+		if err != nil {
+			return nil, err
+		}
+		return types.NewPointer(el), nil
+	case *ast.Ident:
+		if env.pkg != nil {
+			if obj, ok := env.pkg.Scope().Lookup(t.Name).(*types.TypeName); ok {
+				return obj.Type(), nil
+			}
+		}
+		if obj, ok := types.Universe.Lookup(t.Name).(*types.TypeName); ok {
+			return obj.Type(), nil
+		}
+	case *ast.SelectorExpr:
+		if id, ok := t.X.(*ast.Ident); ok {
+			for path, p := range db.w.ByPath {
+				if strings.HasPrefix(path, modPath) && p.Types.Name() == id.Name {
+					if obj, ok := p.Types.Scope().Lookup(t.Sel.Name).(*types.TypeName); ok {
+						return obj.Type(), nil
+					}
+				}
+			}
+		}
+	}
+	return nil, fmt.Errorf("cannot resolve type %v", x)
 }
 
 // resolveType resolves a type expression (ident, pkg.Name, *T, []T).
@@ -1520,7 +1596,7 @@ func staticSliceLen(s string) (int, bool) {
 // ptrTypeFacts states, for every concrete type tag in use, whether it is a pointer type.
 func (f *frame) ptrTypeFacts() {
 	e := f.e
-	for id, ct := range e.typeByID {
+	for id, ct := range e.knownTypes() {
 		_, isP := ct.Underlying().(*types.Pointer)
 		v := "false"
 		if isP {
